@@ -465,6 +465,8 @@ class Packet(object):
     MAX_FRAGMENT_SIZE = 1024
 
     MAX_FRAGMENTS = 0x2000 # ~11mb
+    # the message count is a single byte in the packet header
+    MAX_MESSAGES = 255
     RECV_SIZE = 2048
 
 
@@ -1178,7 +1180,7 @@ class ConnectionBase(object):
                 # calculate the size of the packet so far + this message
                 size = len(msg.payload) + Packet.overhead(1+len(msgs)) + current_msg_length
                 # if the message fits add it to the packet
-                if size <= Packet.MAX_CONTENT_SIZE:
+                if size <= Packet.MAX_CONTENT_SIZE and len(msgs) < Packet.MAX_MESSAGES:
                     del self.pending_retry_msg[msgseq]
                     msgs.append(msg)
                     current_msg_length += len(msg.payload)
@@ -1195,7 +1197,7 @@ class ConnectionBase(object):
             # calculate the size of the packet so far + this message
             size = len(pending.payload) + Packet.overhead(1+len(msgs)) + current_msg_length
             # if the message fits add it to the packet
-            if size <= Packet.MAX_CONTENT_SIZE:
+            if size <= Packet.MAX_CONTENT_SIZE and len(msgs) < Packet.MAX_MESSAGES:
                 self.outgoing_messages.pop(idx)
                 msgs.append(pending)
                 current_msg_length += len(pending.payload)
